@@ -5,6 +5,10 @@ change and passes without it. Writes seeded/<id>/validation.json."""
 import json, os, subprocess, sys, glob, shutil
 sys.path.insert(0, '/verif')
 from seeds_index import SEEDS  # noqa
+def patch_of(d):
+    """the change as ported to the current HEAD of /repo if the original no longer applies"""
+    return d + "/patch-current.diff" if os.path.exists(d + "/patch-current.diff") else d + "/patch.diff"
+
 env = dict(os.environ, GOFLAGS="-mod=mod", GOPROXY="off", GOSUMDB="off", GOTOOLCHAIN="local")
 base = json.load(open("/root/.vp/BASELINE.json"))["stable_pass"]
 def sh(cmd, cwd):
@@ -22,14 +26,14 @@ def main():
     try:
         demos = [f for f in glob.glob(d + "/*_test.go")]
         for f in demos: shutil.copy(f, os.path.join(wt, pkg))
-        rc, out = sh("git apply %s/patch.diff" % d, wt); res["applies"] = rc == 0
+        rc, out = sh("git apply %s" % patch_of(d), wt); res["applies"] = rc == 0
         rc, out = sh("go build ./...", wt); res["builds"] = rc == 0
         run = "go test %s-vet=off -count=1 -run 'Seed' ./%s/" % ("-race " if prop == "C19" else "", pkg)
         rc, out = sh(run, wt); res["demo_with_change_fails"] = rc != 0; res["demo_with_change_tail"] = out[-600:]
         # baseline of the touched package with the change (demo files removed)
         for f in demos: os.remove(os.path.join(wt, pkg, os.path.basename(f)))
         touched = {pkg}
-        for l in open(d + "/patch.diff"):
+        for l in open(patch_of(d)):
             if l.startswith("+++ b/") and l.strip().endswith(".go"):
                 touched.add(os.path.dirname(l[6:].strip()))
         res["touched_packages"] = sorted(touched)
@@ -43,7 +47,7 @@ def main():
         want = {b for b in base if b.split("::")[0] in {"tkestack.io/galaxy/" + t for t in touched}}
         res["baseline_missing_with_change"] = sorted(want - passed)
         for f in demos: shutil.copy(f, os.path.join(wt, pkg))
-        rc, out = sh("git apply -R %s/patch.diff" % d, wt)
+        rc, out = sh("git apply -R %s" % patch_of(d), wt)
         rc, out = sh(run, wt); res["demo_without_change_passes"] = rc == 0; res["demo_without_change_tail"] = out[-300:]
         res["run"] = run
     finally:
